@@ -218,7 +218,12 @@ def run_harness(h, cfg, workdir, trace=False):
                                    "--unwinding-assertions", "--json-ui", "--verbosity", "8"]
     if uw:
         cmd += ["--unwindset", ",".join(uw)]
-    cmd += list(cfg.get("extra") or [])
+    extra = list(cfg.get("extra") or [])
+    if "--max-field-sensitivity-array-size" in extra:
+        # CBMC honours the first occurrence: drop the default so that the harness value wins
+        i = cmd.index("--max-field-sensitivity-array-size")
+        del cmd[i:i + 2]
+    cmd += extra
     if trace:
         cmd += ["--trace"]
     outp = os.path.join(workdir, h["name"] + (".trace" if trace else "") + ".cbmc.json")
@@ -240,6 +245,14 @@ def run_harness(h, cfg, workdir, trace=False):
         out.update(verdict="inconclusive", detail="no property results (rc=%s): %s" % (rc, " | ".join(msgs[-3:])))
         return out
     c = classify(props)
+    # a loop that provably has at most a few iterations (e.g. "pop trailing partial entries") and
+    # still fails its unwinding assertion does not terminate: that is a violation, not a bound issue
+    for rx in cfg.get("nonterm") or []:
+        moved = [f for f in c["unwind_failed"] if re.search(rx, f["property"])]
+        for f in moved:
+            f["description"] = "loop does not terminate within its bound (non-termination): " + f["property"]
+            c["failed"].append(f)
+        c["unwind_failed"] = [f for f in c["unwind_failed"] if f not in moved]
     # solver statistics from messages
     rt = [m for m in msgs if "Runtime" in m]
     out["properties"] = c["total"]
